@@ -67,8 +67,8 @@ Definition handover_ok (r_low r_upp r_alfa r_beta : list Q) (r_P r_Q : list (lis
 
 (* first evaluated point = init_state; xsi / eta are compared on the recorded x (they are 1/(x - alfa) with x - alfa
    as small as 1e-10, so they must see the same x) *)
-Definition init_ok (D : sdata Q) (x0 : list Q) (sX : Q) (r : sstate Q) : bool :=
-  let st := init_state D (Some x0) in
+Definition init_ok (D : sdata Q) (x0 : option (list Q)) (sX : Q) (r : sstate Q) : bool :=
+  let st := init_state D x0 in
   Ql_close_s sX (sx st) (sx r) && Ql_eqb (sy st) (sy r) && Qeq_bool (sz st) (sz r) && Ql_eqb (slam st) (slam r) &&
   Ql_close_rel (xsi_init (d_alfa D) (sx r)) (sxsi r) && Ql_close_rel (eta_init (d_beta D) (sx r)) (seta r) &&
   Ql_close_rel (smu st) (smu r) && Qeq_bool (szet st) (szet r) && Ql_eqb (ss st) (ss r).
